@@ -50,27 +50,32 @@ Spellings == IF OpSet = "all" THEN 1..5 ELSE {1, 3}
 Targets == {Spell(k, c) : k \in Spellings, c \in Canon}
 Sources == {<<"a">>, <<"c">>, <<"b", "a">>, <<"b", "b">>, <<"a", "b">>, <<"b", "b", "c">>, <<".", "a", "", "c">>}
 
-Op1(op, p)       == [op |-> op, p |-> p, q |-> <<>>, c |-> Empty]
-OpC(op, p, c)    == [op |-> op, p |-> p, q |-> <<>>, c |-> c]
-Op2(op, p, q)    == [op |-> op, p |-> p, q |-> q, c |-> Empty]
+Op1(op, p)       == [op |-> op, p |-> p, q |-> <<>>, c |-> Empty, f |-> <<>>]
+OpC(op, p, c)    == [op |-> op, p |-> p, q |-> <<>>, c |-> c, f |-> <<>>]
+Op2(op, p, q)    == [op |-> op, p |-> p, q |-> q, c |-> Empty, f |-> <<>>]
+OpF(p, c, f)     == [op |-> "oopen", p |-> p, q |-> <<>>, c |-> c, f |-> f]
+AllFlags == [1..6 -> BOOLEAN]
+OpenTargets == {<<"a">>, <<"c">>, <<"b", "a">>, <<"a", "b">>, <<"b", "b", "c", "">>}
 Unary  == {"read", "create_dir", "create_dir_all", "remove_dir_all", "remove_file", "remove_dir",
            "exists", "metadata", "read_dir"}
-Writes == IF OpSet = "all" THEN {"write", "owrite_c", "owrite_a", "owrite_x", "owrite_t", "owrite_p"} ELSE {"write"}
+Writes == {"write"}
 
 \* operations that would open a fifo block for ever: never generated
 OpensFifo(t, segs) == LET w == Resolve(t, segs, TRUE) IN w.r = "node" /\ t[w.p].k = "p"
 Blocks(t, o) ==
-    \/ o.op \in Writes \cup {"read", "copy", "remove_dir_all", "read_dir"} /\ OpensFifo(t, o.p)
+    \/ o.op \in Writes \cup {"oopen", "read", "copy", "remove_dir_all", "read_dir"} /\ OpensFifo(t, o.p)
     \/ o.op = "copy" /\ OpensFifo(t, o.q)
 Ops(t) == {o \in {Op1(op, p) : op \in Unary, p \in Targets}
                  \cup {OpC(op, p, c) : op \in Writes, p \in Targets, c \in {S, M}}
-                 \cup {Op2(op, p, q) : op \in {"copy", "rename"}, p \in Sources, q \in Targets} :
+                 \cup {Op2(op, p, q) : op \in {"copy", "rename"}, p \in Sources, q \in Targets}
+                 \cup (IF OpSet = "all" THEN {OpF(p, S, f) : p \in OpenTargets, f \in AllFlags} ELSE {}) :
               ~Blocks(t, o) /\ ~(o.op = "copy" /\ CopySameNode(t, o.p, o.q))}
 
 Picks == IF Mode = "picks" THEN ndJsonDeserialize(IOEnv.PICKS) ELSE <<>>
 KindSeq   == <<"read", "create_dir", "create_dir_all", "remove_dir_all", "remove_file", "remove_dir", "exists",
-               "metadata", "read_dir", "write", "owrite_c", "owrite_a", "owrite_x", "owrite_t", "owrite_p",
+               "metadata", "read_dir", "write", "oopen", "oopen", "oopen", "write", "read",
                "copy", "rename", "write", "create_dir_all", "remove_dir_all", "copy", "rename">>
+FlagSeq   == SetToSeq(AllFlags)
 TargetSeq == SetToSeq(Targets)
 SourceSeq == SetToSeq(Sources)
 At(sq, x) == sq[(x % Len(sq)) + 1]
@@ -78,6 +83,7 @@ Decode(t, x) ==
     LET k == At(KindSeq, x[1])
         o == IF k \in Unary THEN Op1(k, At(TargetSeq, x[2]))
              ELSE IF k \in {"copy", "rename"} THEN Op2(k, At(SourceSeq, x[2]), At(TargetSeq, x[3]))
+             ELSE IF k = "oopen" THEN OpF(At(TargetSeq, x[2]), At(<<S, M>>, x[4]), At(FlagSeq, x[3]))
              ELSE OpC(k, At(TargetSeq, x[2]), At(<<S, M>>, x[4]))
     IN IF Blocks(t, o) \/ (o.op = "copy" /\ CopySameNode(t, o.p, o.q)) THEN Op1("exists", o.p) ELSE o
 
